@@ -556,12 +556,12 @@ func (conn *obfs4Conn) Write(b []byte) (int, error) {
 				if frameBuf.Len() < targetLen {
 					// There's not enough data buffered for the target write,
 					// so padding must be inserted.
-					if err = conn.padBurst(&frameBuf, targetLen); err != nil {
+					if err = conn.padWrite(&frameBuf, targetLen); err != nil {
 						return 0, err
 					}
 					if frameBuf.Len() != targetLen {
 						// Ugh, padding came out to a value that required more
-						// than one frame, this is relatively unlikely so just
+						// than one write, this is relatively unlikely so just
 						// resample since there's enough data to ensure that
 						// the next sample will be written.
 						continue
@@ -617,6 +617,28 @@ func (conn *obfs4Conn) closeAfterDelay(sf *obfs4ServerFactory, startTime time.Ti
 	// Consume and discard data on this connection until the specified interval
 	// passes.
 	_, _ = io.Copy(io.Discard, conn.Conn)
+}
+
+// padWrite pads a burst that is shorter than the paranoid IAT mode write
+// length up to that length.  A padding frame can not be shorter than
+// headerLength, so when the shortfall is not larger than that, whole
+// additional writes worth of padding are inserted, leaving a multiple of the
+// write length buffered.  (Adding a full segment like padBurst() does can
+// leave yet another short tail behind, forever for unlucky length tables.)
+func (conn *obfs4Conn) padWrite(burst *bytes.Buffer, writeLen int) error {
+	padLen := writeLen - burst.Len()
+	for padLen <= headerLength {
+		padLen += writeLen
+	}
+	if padLen > framing.MaximumSegmentLength {
+		// Only possible when writeLen is close to the segment length.
+		if err := conn.makePacket(burst, packetTypePayload, []byte{}, 0); err != nil {
+			return err
+		}
+		padLen -= headerLength
+	}
+
+	return conn.makePacket(burst, packetTypePayload, []byte{}, uint16(padLen-headerLength))
 }
 
 func (conn *obfs4Conn) padBurst(burst *bytes.Buffer, toPadTo int) error {
